@@ -181,19 +181,19 @@ namespace sim
 			// if the socket is being bound to port 0, it means the system picks a
 			// free port. We want to avoid re-using ports, because that may confuse
 			// wireshark when threading together the TCP streams.
-			ep.port(m_next_bind_port++);
-			if (m_next_bind_port > 65534) m_next_bind_port = 2000;
-
-			listen_socket_iter_t i = m_listen_sockets.lower_bound(ep);
-			while (i != m_listen_sockets.end() && i->first == ep)
+			// skip ports that are taken. Only when every candidate has been
+			// tried (the counter is back where it started) there is no free port
+			std::uint16_t const first = m_next_bind_port;
+			for (;;)
 			{
-				ep.port(ep.port() + 1);
-				if (ep.port() > 65530)
+				ep.port(m_next_bind_port++);
+				if (m_next_bind_port > 65534) m_next_bind_port = 2000;
+				if (m_listen_sockets.count(ep) == 0) break;
+				if (m_next_bind_port == first)
 				{
 					ec = boost::asio::error::address_in_use;
 					return ip::tcp::endpoint();
 				}
-				i = m_listen_sockets.lower_bound(ep);
 			}
 		}
 
@@ -241,18 +241,19 @@ namespace sim
 			// if the socket is being bound to port 0, it means the system picks a
 			// free port.
 
-			ep.port(m_next_bind_port++);
-			if (m_next_bind_port > 65534) m_next_bind_port = 2000;
-			udp_socket_iter_t i = m_udp_sockets.lower_bound(ep);
-			while (i != m_udp_sockets.end() && i->first == ep)
+			// skip ports that are taken. Only when every candidate has been
+			// tried (the counter is back where it started) there is no free port
+			std::uint16_t const first = m_next_bind_port;
+			for (;;)
 			{
-				ep.port(ep.port() + 1);
-				if (ep.port() > 65530)
+				ep.port(m_next_bind_port++);
+				if (m_next_bind_port > 65534) m_next_bind_port = 2000;
+				if (m_udp_sockets.count(ep) == 0) break;
+				if (m_next_bind_port == first)
 				{
 					ec = boost::asio::error::address_in_use;
 					return ip::udp::endpoint();
 				}
-				i = m_udp_sockets.lower_bound(ep);
 			}
 		}
 
